@@ -103,6 +103,7 @@ ReadFailed(e) ==
   \cup Chk("C07.eof_only_if_checksum", (cont /\ first /\ e.err = "eof") => (b.ref.verdict = "eof" /\ g2 = b.ref.len /\ e.ok))
   \cup Chk("C03.error_class", (first /\ e.err \notin {"nil", "eof", "injected"}) => AllowedFinal(e.err, e.dead))
   \cup Chk("C07.prefix_only", cont => (e.ok /\ g2 <= b.ref.len))
+  \cup Chk("C07.sticky", (cont /\ ~first) => (e.err = rerr /\ e.n = 0))
   \cup Chk("C07.cut_is_uxeof", (cont /\ first /\ e.err # "nil" /\ b.cut /\ ~srcFailed) => e.err = "uxeof")
   \cup Chk("C02.same_as_std", (first /\ e.err # "nil" /\ b.std.verdict = "eof" /\ ~srcFailed) => (e.err = "eof" /\ g2 = b.std.len))
   \cup Chk("C06.readback", (cont /\ first /\ e.err # "nil" /\ b.std.verdict = "eof" /\ ~srcFailed) => (e.err = "eof" /\ g2 = b.std.len))
